@@ -45,12 +45,12 @@ def oracle(ctx, kind, L, vals, reads, case, scale):
                 exp = [sum(w[k] * cols[k][j] for k in range(n)) for j in range(d)]
                 if not all(acclib.close_num(g, e, scale) for g, e in zip(got, exp)):
                     ctx.fail('running-mean-weights-wrong', 'RunningMean(lifetime=%s) after %d observations reports %s, the weighted average '
-                             'with the stated weights is %s' % (L, n, got[:4], [float(e) for e in exp[:4]]), case)
+                             'with the stated weights is %s' % (L, n, got[:4], [acclib.show(e) for e in exp[:4]]), case)
                     return
             lo = [min(c[j] for c in cols[:n]) for j in range(d)]
             hi = [max(c[j] for c in cols[:n]) for j in range(d)]
             eps = Fraction(1, 10 ** 9) * scale
-            if any(Fraction(g) < l - eps or Fraction(g) > h + eps for g, l, h in zip(got, lo, hi)):
+            if any(not np.isfinite(g) or Fraction(g) < l - eps or Fraction(g) > h + eps for g, l, h in zip(got, lo, hi)):
                 ctx.fail('running-mean-outside-data-range', 'value %s outside [%s, %s]' % (got[:4], lo[:4], hi[:4]), case)
                 return
         elif n <= L:
@@ -76,7 +76,7 @@ def check(ctx):
         L = rng.choice([1, 2, 3, 5, 8, 10, 20, 50, 2.5, 1.0, 7.25])
         n = rng.choice([1, 2, 3, 5, 9, 12, 25, 60])
         shape = rng.choice([(), (), (2,), (3,)]) if kind != 'rcov' else rng.choice([(2,), (3,)])
-        fam = rng.choice(['int', 'dyadic', 'tied', 'const', 'mixed', 'narrowint'])
+        fam = rng.choice(['int', 'dyadic', 'tied', 'const', 'mixed', 'narrowint'] + (['nearmax'] if kind == 'rmean' else []))
         if fam == 'const':
             c = rng.randint(-9, 9) / 2
             vals = [c if shape == () else {'arr': (np.ones(shape) * c).tolist(), 'dtype': 'float64'} for _ in range(n)]
@@ -96,6 +96,7 @@ def check(ctx):
             prog.append(['read', 'a'])
         # a refused merge must leave the accumulator as it is
         prog += [['new', 'b', c['kind'], c['L']], ['merge', 'a', 'b'], ['read', 'a']]
+        c['history_ops'] = acclib.gen_history_ops(rng, prog)
         progs.append(prog)
         lines += acclib.model_lines(prog)
         spans.append(acclib.n_outputs(prog))
@@ -106,7 +107,7 @@ def check(ctx):
     for c, prog, k in zip(cases, progs, spans):
         model = acclib.parse_model(mout[pos:pos + k])
         pos += k
-        impl, regs = acclib.run_impl(prog)
+        impl, regs = acclib.run_impl(acclib.apply_history_ops(prog, c.get('history_ops')))
         flatvals = [acclib.flat(v)[1] for v in c['values']]
         mx = max([abs(x) for col in flatvals for x in col] + [Fraction(1)])
         scale = mx * mx if c['kind'] != 'rmean' else mx
@@ -148,7 +149,7 @@ def replay(ctx, data):
         if c.get('change') and c['change'][0] == i:
             prog.append(['lifetime', 'a', c['change'][1]])
         prog += [['push', 'a', v], ['read', 'a']]
-    impl, regs = acclib.run_impl(prog)
+    impl, regs = acclib.run_impl(acclib.apply_history_ops(prog, c.get('history_ops')))
     flatvals = [acclib.flat(v)[1] for v in c['values']]
     mx = max([abs(x) for col in flatvals for x in col] + [Fraction(1)])
     if not c.get('change'):
